@@ -1011,6 +1011,11 @@ class Interp:
                 m = self.ctx.models.attr_hook(self, base, o, attr, node)
                 if m is not NotImplemented:
                     return m
+                if getattr(o, "declared", False):
+                    # a symbolic instance only has the fields its klass declaration lists: an attribute the code reads
+                    # but the declaration does not know (added since the contract was written) is outside the contract's
+                    # vocabulary - undecided, never an AttributeError of the real code
+                    raise Unsupported("field %s.%s is not declared in the klass contract" % (o.cls, attr), node)
                 raise PyRaise("AttributeError", "%s.%s" % (o.cls, attr))
             m = self.ctx.models.attr_hook(self, base, o, attr, node)
             if m is not NotImplemented:
